@@ -31,6 +31,9 @@ func (p *Prog) slotSet() map[*types.Var]string {
 			m[f] = q
 		}
 	}
+	if _, completion, _ := natsRoles(p); completion != nil {
+		m[completion] = "nats.responseCont.f"
+	}
 	return m
 }
 
@@ -235,6 +238,7 @@ type linTarget struct {
 	fn    *ssa.Function
 	param int
 	name  string
+	soft  bool // not in the combinator table: analysed, but a visitor-like result is only noted
 }
 
 // linTargets enumerates the LIN obligations: every ModeOnce entry of the
@@ -258,7 +262,7 @@ func linTargets(p *Prog) (targets []linTarget, unclassified []string) {
 		}
 		seen[fn][idx] = true
 		if d.Mode == ModeOnce {
-			targets = append(targets, linTarget{fn, idx, d.Fn})
+			targets = append(targets, linTarget{fn, idx, d.Fn, false})
 		}
 	}
 	for _, fn := range p.Repo {
@@ -274,7 +278,7 @@ func linTargets(p *Prog) (targets []linTarget, unclassified []string) {
 			}
 			unclassified = append(unclassified, fmt.Sprintf("%s param %s", fnName(fn), prm.Name()))
 			// analysed as a linear continuation: must come out exactly-once
-			targets = append(targets, linTarget{fn, i, fnName(fn)})
+			targets = append(targets, linTarget{fn, i, fnName(fn), true})
 		}
 	}
 	return
@@ -337,7 +341,11 @@ func ruleLIN(filter func(linTarget) bool) func(c *Ctx) {
 			if len(tr.Paths) == 0 {
 				bad = "no normal path found"
 			}
-			if bad != "" {
+			if bad != "" && tg.soft {
+				// a new helper taking a function: used as a visitor / multi-shot callback, not as a continuation
+				c.note("%s.%s is not in the combinator table and is not linear (%s): treated as a visitor", construct, tg.fn.Params[tg.param].Name(), bad)
+				c.ob(Ob{Rule: c.res.Rule, Construct: construct, What: what, Pos: pos, Status: OK, Detail: "not a continuation (visitor-like helper): " + bad, Trivial: true})
+			} else if bad != "" {
 				c.viol(construct, what, pos, bad)
 			} else {
 				c.ok(construct, what, pos, fmt.Sprintf("%d full paths, each consumes once (%d end at an accepted connection-refused drop)", len(tr.Paths), nDrop))
